@@ -129,12 +129,22 @@ def _parallel(cmd, lines, env=None, jobs=None):
         res = list(ex.map(lambda c: _run_chunk(cmd, c, env), chunks))
     return [r for c in res for r in c]
 
+# when set (by ./check, if an obligation is broken or in the thorough tier) the coverage-instrumented builds run
+# instead and write Go coverage counters there: which statements of /repo the campaign executed
+COVER = {'dir': None}
+
+def cover_env(env):
+    if COVER['dir']:
+        env['GOCOVERDIR'] = COVER['dir']
+    return env
+
 def run_impl(lines, timeout_ms=5000, jobs=None):
     env = dict(os.environ)
     env['IMPL_TIMEOUT_MS'] = str(timeout_ms)
     env['GOMEMLIMIT'] = '1GiB'
     env['GOMAXPROCS'] = '2'
-    return _parallel(['/bin/sh', '-c', f'ulimit -v 4000000; exec {IMPL}'], lines, env, jobs)
+    exe = IMPL + '_cover' if COVER['dir'] and os.path.exists(IMPL + '_cover') else IMPL
+    return _parallel(['/bin/sh', '-c', f'ulimit -v 4000000; exec {exe}'], lines, cover_env(env), jobs)
 
 def run_model(lines, fuel=8000, jobs=None):
     return _parallel(['/bin/sh', '-c', f'ulimit -s unlimited 2>/dev/null || ulimit -s 1000000; exec {MODEL} {fuel}'], lines, None, jobs)
